@@ -295,6 +295,13 @@ func graphCheck(env *Env, res *Result, c Case, sub int, val interface{}, feats [
 	}
 }
 
+type c04Maps struct {
+	Id   int32
+	Maps []map[string]*c04Maps
+	MM   map[string]map[string]*c04Maps
+	Tags map[string]*c04Maps
+}
+
 func (c04) Run(c Case, env *Env) Result {
 	var res Result
 	switch c.Kind {
@@ -361,6 +368,25 @@ func (c04) Run(c Case, env *Env) Result {
 				gms[2].M = nil // one node without the map
 			}
 			graphCheck(env, &res, c, j*4+3, gms[0], []string{"typed-map-before-lists", "nodes=4"}, 4)
+			// the root handed over behind ONE MORE pointer (ToBytes(&p) with p already a *T): the node is the
+			// node whichever way it reached the encoder
+			p, q := &zoo.GNode{Id: 1}, &zoo.GNode{Id: 2}
+			p.A, q.A, q.B = q, p, q
+			q.Kids = []*zoo.GNode{p, q}
+			if j%2 == 1 {
+				q.ByKey = map[string]*zoo.GNode{"p": p}
+			}
+			graphCheck(env, &res, c, j*4+1, &p, []string{"root-behind-a-second-pointer", "nodes=2"}, 2)
+			// ONE map reachable as two elements of a typed list of maps, as two values of a map of maps and as a
+			// map field: one map after decoding
+			if j%2 == 0 {
+				a := &c04Maps{Id: int32(j)}
+				m := map[string]*c04Maps{"a": a, "b": {Id: 9}}
+				a.Maps = []map[string]*c04Maps{m, {"other": a}, m}
+				a.MM = map[string]map[string]*c04Maps{"x": m, "y": m}
+				a.Tags = m
+				graphCheck(env, &res, c, j*4, a, []string{"one-map-in-list-elements-map-values-and-a-field", "nodes=2"}, 2)
+			}
 		}
 	case "lit":
 		if f, ok := literals[c.S]; ok {
